@@ -226,7 +226,7 @@ def generate(run_seed, tier):
             prog[-1]["export_first"] = wl.random() < 0.7
         if wl.random() < 0.12:
             prog.append({"op": "export", "id": bid, "flags": wl.random() < 0.7})
-    words = wl.sample(c20.WORDS, 8) + [wl.choice(g.pal) for _ in range(4)]
+    words = wl.sample(c20.WORDS, 8) + [c for c in (wl.choice(g.pal) for _ in range(4)) if not c20.cm.in_zone(c)]
     texts = {"t%d" % t: "".join(wl.choice(words + [" ", "\n", "1", "ab"]) for _ in range(wl.randint(0, 10))) for t in range(3)}
     texts["t_empty"] = ""
     nkeys = 3 if tier == "quick" else 6
